@@ -144,7 +144,8 @@ pub fn c03_ops() -> Vec<Op> {
             if !c01::features(&f, &x).is_empty() {
                 continue;
             }
-            let s = emit::join(&emit::value(&f, &x), " ");
+            // written without any optional blank (as the Han formatter prints it): names touch the copulas
+            let s = emit::join(&emit::value(&f, &x), "");
             if !c03::features(&f, Some(&x), &s).is_empty() {
                 continue;
             }
@@ -322,7 +323,7 @@ pub fn c10_ops() -> Vec<Op> {
         let st = &e.statement;
         let c = &e.compound;
         let (ss, ps) = (emit::join(&emit::term_toks(&f, &s), ""), emit::join(&emit::term_toks(&f, &p), ""));
-        let stmt = |cop: &str| format!("{}{} {} {}{}", st.brackets.0, ss, cop, ps, st.brackets.1);
+        let stmt = |cop: &str| format!("{}{}{}{}{}", st.brackets.0, ss, cop, ps, st.brackets.1);
         let img = |items: &[&str], conn: &str| format!("{}{}{}{}{}", c.brackets.0, conn, c.separator, items.join(c.separator), c.brackets.1);
         let ph = e.atom.prefix_placeholder;
         let mut cases: Vec<(String, R)> = vec![
